@@ -10,6 +10,8 @@ for d in sorted(glob.glob(os.path.join(ROOT, 'seeded', '*'))):
   meta_p = os.path.join(d, 'meta.json')
   meta = json.load(open(meta_p))
   pid = meta['property']
+  if meta.get('superseded'):
+    continue      # the defect the change relied on was repaired by a fix: commit (see meta.json); kept for the record only
   if only and os.path.basename(d) not in only and pid not in only:
     continue
   ev = os.path.join(ROOT, 'evidence', pid + '.json')
